@@ -6,6 +6,7 @@ import OhkamiModel.Drv.C12
 import OhkamiModel.Drv.C13
 import OhkamiModel.Drv.C17
 import OhkamiModel.Drv.C18
+import OhkamiModel.Drv.C19
 import OhkamiModel.Drv.C20
 /-! The one line-protocol driver: `driver <prop>` reads one JSON case per line on stdin, writes one JSON answer per line. -/
 open Lean
@@ -29,5 +30,6 @@ def main (args : List String) : IO UInt32 := do
   | ["C13"] => loop stdin DrvC13.runCase; return 0
   | ["C17"] => loop stdin DrvC17.runCase; return 0
   | ["C18"] => loop stdin DrvC18.runCase; return 0
+  | ["C19"] => loop stdin DrvC19.runCase; return 0
   | ["C20"] => loop stdin DrvC20.runCase; return 0
   | _ => IO.eprintln "usage: driver <property id>"; return 2
